@@ -36,7 +36,8 @@ import preplib as P
 
 # ---- the proof obligations (coq/props/C15.v); everything below works independently of this list
 THEOREMS = ["C15_selects", "C15_selects_nontrivia", "C15_selects_text", "C15_selects_lexed", "C15_disabled_invisible",
-            "C15_disabled_covered", "C15_unterminated", "C15_missing_name"]
+            "C15_disabled_covered", "C15_unterminated", "C15_unterminated_lexed", "C15_missing_name",
+            "C15_missing_name_lexed"]
 TRUSTED = [
     "Coq 8.16.1 kernel (coqc); Print Assumptions of every theorem is checked against the allow-list (none)",
     "statement of the specification coq/model/PrepSpec.v (items, items_ok, render_items, select, partial arrangements, missing_name), "
